@@ -23,7 +23,7 @@ RULE = (
     "violation. Non-trivial: a parameterised macro used >= 2 times with different actuals, or >= 2 macro kinds combined; distinct by canonical hash."
 )
 ASSUMPTIONS = ["only the supported use forms are generated (string macro as key with an operand list, formals in key position, item macro with sibling times are not)", "macro names pairwise not substrings of one another"]
-FLOORS = {"kind=item": 0.1, "kind=operand": 0.1, "kind=substring": 0.1, "kind=times-body": 0.02, "kind=param": 0.15, "extra-files": 0.3, "multi-use": 0.3}
+FLOORS = {"has-deref": 0.1, "kind=item": 0.1, "kind=operand": 0.1, "kind=substring": 0.1, "kind=times-body": 0.02, "kind=param": 0.15, "extra-files": 0.3, "multi-use": 0.3}
 
 
 def budget(tier):
@@ -44,6 +44,31 @@ def base_rule(draw):
             got = describe_operands_grouped(draw, NV[i + q][2])
             if got[0]:
                 pattern[q] = {node: got[0]}
+    # describe memory operands by $deref (their fields are mappings directly under a key: formals may stand for field values)
+    from vlib.gen_listing import parse_norm_mem
+    from vlib.gen_pattern import describe_operand
+
+    keymap = {"a": "main_reg", "b": "register_multiplier", "c": "constant_multiplier", "k": "constant_offset"}
+    for q, node in enumerate(pattern):
+        if isinstance(node, (str, int)) and i + q < n and draw(st.integers(0, 1)) == 0:
+            ops = NV[i + q][2]
+            mem = [z for z, o in enumerate(ops) if parse_norm_mem(o)]
+            if mem:
+                z = mem[0]
+                pre = [describe_operand(draw, o) for o in ops[:z]]
+                if all(d is not None for d in pre):
+                    comp = parse_norm_mem(ops[z])
+                    pattern[q] = {node: pre + [{"$deref": {keymap[ck]: v for ck, v in comp.items()}}]}
+    if draw(st.integers(0, 3)) == 0:
+        # C13's oracle compares two renderings of the same rule, so the rule need not describe the listing: add a $deref item
+        shape = draw(st.sampled_from([("main_reg",), ("main_reg", "constant_offset"), ("main_reg", "register_multiplier", "constant_multiplier"),
+                                      ("main_reg", "register_multiplier", "constant_multiplier", "constant_offset")]))
+        vals = {"main_reg": ["%rax", "rbx", "%rsp", "r8"], "register_multiplier": ["%rcx", "rdx", "%r9"], "constant_multiplier": ["4", 8, "2", 1], "constant_offset": ["0x10", "8", "-0x8", 16]}
+        fields = {f: draw(st.sampled_from(vals[f])) for f in draw(st.permutations(list(shape)))}
+        ops = [{"$deref": fields}]
+        if draw(st.booleans()):
+            ops.insert(draw(st.integers(0, 1)), draw(st.sampled_from(["rax", "%ecx", "0x1"])))
+        pattern.insert(draw(st.integers(0, len(pattern))), {draw(st.sampled_from(["mov", "lea", "add"])): ops})
     for q, node in enumerate(pattern):
         if isinstance(node, str) and draw(st.integers(0, 3)) == 0:
             pattern[q] = {node: {"times": draw(st.sampled_from([1, {"min": 1, "max": 1}, {"min": 1, "max": 2}]))}}
@@ -181,6 +206,8 @@ def evaluate(case):
     ri = jasm_io.compile_rule(doc_i)
     ev.subcases = 2
     ev.tags = [f"kind={k}" for k in case["kinds"]]
+    if "$deref" in jasm_io.dump_yaml(case["original"]):
+        ev.tags.append("has-deref")
     if case["macro_files"]:
         ev.tags.append("extra-files")
     if case["multi"]:
